@@ -791,6 +791,8 @@ class ClassGen:
 
     def value(self, pname, ann, depth, default=inspect.Parameter.empty):
         r = self.rng
+        if pname == 'seed':
+            return r.randint(0, 99)
         if default is not inspect.Parameter.empty and r.random() < 0.35:
             return default
         origin = typing.get_origin(ann)
@@ -869,7 +871,7 @@ class ClassGen:
         for name, p in list(sig.parameters.items())[1:]:
             if p.kind in (p.VAR_POSITIONAL, p.VAR_KEYWORD):
                 continue
-            if p.default is not p.empty and (depth <= 0 or self.rng.random() < 0.3):
+            if p.default is not p.empty and name != 'seed' and (depth <= 0 or self.rng.random() < 0.3):
                 continue
             kwargs[name] = self.value(name, hints.get(name, p.annotation if not isinstance(p.annotation, str) else inspect.Parameter.empty), depth, p.default)
         return cls(**kwargs), kwargs
@@ -1008,8 +1010,9 @@ def check_object(ctx, clsname, obj, kwargs, calls, stream='classes'):
     if n_ok:
         ctx.dist['classes:objects-with-outcomes'] += 1
     if has_unseeded(d):
-        bx = [(m, k, v if k == 'exc' else type(v).__name__) for m, k, v in bx]
-        by = [(m, k, v if k == 'exc' else type(v).__name__) for m, k, v in by]
+        # an unseeded random component (seed=None draws from OS entropy): outcomes are not comparable run to run
+        ctx.dist['classes:unseeded-outcomes-not-compared'] += 1
+        return None, None
     if bx != by:
         diff = [(a, b) for a, b in zip(bx, by) if a != b][:2]
         lost_default = all(b[1:] == ('exc', 'KeyError') for a, b in zip(bx, by) if a != b)   # the recorded behaviour: KeyError on a missing rank
